@@ -14,6 +14,7 @@ Stub: failure behaviour of open/write/close/truncate/unlink (simlib.fs)
 """
 import errno
 import io
+import gc
 import os
 import random
 import shutil
@@ -78,6 +79,18 @@ def make_record(rng, size, rid):
 def valid_sequence(data, compressed):
     recs, errors = refwarc.parse_warc_file(data, compressed)
     return (not errors), recs, errors
+
+
+_frozen = [False]
+
+
+def _collect():
+    """A full collection, made cheap: everything that existed before the first call is moved to the permanent generation."""
+    if not _frozen[0]:
+        gc.collect()
+        gc.freeze()
+        _frozen[0] = True
+    gc.collect()
 
 
 def run(tape, prop, tier):
@@ -149,6 +162,9 @@ def run(tape, prop, tier):
                     recorder.write_record(rec)
                 except OSError as e:
                     err = e
+                # objects the failed append abandoned (an unclosed GzipFile in a reference cycle ...) are finalised NOW, still
+                # under the fault seam, not at some later collection: whatever they write belongs to this attempt
+                _collect()
             return f, err
 
         # ---- dry run: count operations, take kill snapshots
